@@ -484,6 +484,12 @@ package query
 //@   loop 1 invariant forall(k, 0, $i, records[k + 1].view == rs.Records[k].view && records[k + 1].recordIndex == rs.Records[k].recordIndex)
 //@   loop 1 modifies records[*]
 //@   modifies fresh
+//@ func (*ReferenceScope).CreateScopeForSequentialEvaluation
+//@   property C03 C13
+//@   safety
+//@   requires rs != nil && view != nil
+//@   ensures [a-scope-of-its-own-before-the-first-row] result != nil && fresh(result) && fresh(result.Records) && len(result.Records) == len(rs.Records) + 1 && result.Records[0].view == view && result.Records[0].recordIndex == -1
+//@   modifies fresh
 //@ func evaluateSequentialRoutine
 //@   property C03 C12
 //@   requires gm != nil && scope != nil && view != nil && gm.Number >= 1 && gm.recordLen == len(view.RecordSet) && 0 <= thIdx && thIdx < gm.Number
@@ -516,6 +522,7 @@ package query
 //@ axiom rank_monotone: forallv(s, []bool, forall(j, 0, MaxInt64, forall(k, 0, MaxInt64, j <= k ==> rankOf(s, j) <= rankOf(s, k))))
 
 //@ func (*View).filter$1
+//@   writesthrough results
 //@   property C03 C12 C13
 //@   requires 0 <= rIdx && rIdx < len(results)
 //@   ensures [slot-set-iff-true] result == nil ==> results[rIdx] == (old(results[rIdx]) || value.ternOf(lastEval) == ternary.TRUE)
@@ -632,6 +639,7 @@ package query
 //@   modifies *
 
 //@ func (*View).Fix$1
+//@   writesthrough view
 //@   property C03 C05 C12 C13
 //@   safety
 //@   requires view != nil && 0 <= index && index < len(view.RecordSet) && fieldLen == len(view.selectFields)
@@ -680,6 +688,7 @@ package query
 // one row of the merged join result: column i of the output is input column fieldIndices[i], except that a NULL
 // join column takes the value of its counterpart from the other table (alternatives maps column index to column index)
 //@ func joinViews$2
+//@   writesthrough view
 //@   property C03 C12 C13
 //@   safety
 //@   requires view != nil && 0 <= index && index < len(view.RecordSet) && fieldLen == len(fieldIndices) && poolWf(includeIndices) && alternatives != nil
@@ -916,6 +925,14 @@ package query
 //@   requires len(rs.Records) >= 1
 //@   ensures result != nil && fresh(result) && fresh(result.Records) && len(result.Records) == len(rs.Records)
 //@   modifies fresh
+// DISTINCT rebuilds the header and the rows: the caches that are indexed by the old rows and columns (comparison keys,
+// per-cell sort keys filled by analytic functions of the select list) do not survive it
+//@ func (*View).Select!distinct
+//@   property C17 C07 C04
+//@   abstract *
+//@   requires view != nil
+//@   ensures [row-indexed-caches-dropped-with-the-old-rows] result == nil && clause.Distinct.Token == parser.DISTINCT ==> view.sortValuesInEachCell == nil && view.comparisonKeysInEachRecord == nil
+//@   modifies *
 //@ func NewFunctionNotExistError
 //@   trusted assumed: error constructor
 //@   ensures result != nil
@@ -1148,6 +1165,7 @@ package query
 // C19: rectangular tables. LTSV rows lack the labels first seen on later lines; each row is padded to the header
 // length (worker closure run under GoroutineTaskManager.Run).
 //@ func loadViewFromLTSVFile$1
+//@   writesthrough records
 //@   property C19 C12 C13
 //@   safety
 //@   requires 0 <= index && index < len(records)
@@ -1172,7 +1190,7 @@ package query
 //@   trusted assumed: atomic load; writes nothing
 //@   modifies nothing
 //@ func readRecordSet$1
-//@   property C19 C13 C02
+//@   property C19 C13 C02 C03
 //@   safety
 //@   atomiconly pos
 //@   goroutineowns recordSet
@@ -1241,6 +1259,25 @@ package query
 //@   guarded MD:string→*query.UrlResource by mutexHeld[scope.Tx.viewLoadingMutex]
 //@   modifies *
 //@   modifies mutexHeld
+// C13: REPLACE: the workers that match rows against keys report a replaced row through one function; everything it touches
+// (the set of replaced rows and their count, shared by all workers) is touched only while its mutex is held
+//@ func (*View).replace$3
+//@   property C13 C12
+//@   requires replaceMtx != nil
+//@   guarded C:int# by mutexHeld[replaceMtx]
+//@   guarded MV:int→bool by mutexHeld[replaceMtx]
+//@   guarded MD:int→bool by mutexHeld[replaceMtx]
+//@   modifies *
+//@   modifies mutexHeld
+// C13 / C12 / C15 / C17: the partition workers of an analytic function. Each works with a scope of its own (the position
+// inside the scope and the argument buffer of a user-defined aggregate are per-worker state): a worker never stores into
+// a scope record or a value list that existed before it started
+//@ func Analyze$2
+//@   property C13 C12 C15 C17
+//@   abstract *
+//@   requires scope != nil && view != nil && gm != nil && gm.Number >= 1 && gm.recordLen >= 0 && 0 <= thIdx && thIdx < gm.Number
+//@   writesthrough view
+//@   modifies *
 //@ func (*GoroutineTaskManager).HasError
 //@   property C13
 //@   guarded F:query.GoroutineTaskManager.err# by mutexHeld[m.grTaskMutex]
@@ -1297,26 +1334,29 @@ package query
 //@   modifies *
 //@   modifies looseKeys, strictKeys
 //@ func Distinguish
-//@   property C04
+//@   property C04 C12 C13
 //@   ensures [strict-equal-never-uses-the-normalising-key] old(flags.StrictEqual) ==> looseKeys == old(looseKeys)
 //@   ensures [default-never-uses-the-exact-key] !old(flags.StrictEqual) ==> strictKeys == old(strictKeys)
-//@   loop 1 invariant flags.StrictEqual == old(flags.StrictEqual) && (old(flags.StrictEqual) ==> looseKeys == old(looseKeys)) && (!old(flags.StrictEqual) ==> strictKeys == old(strictKeys))
-//@   loop 2 invariant flags.StrictEqual == old(flags.StrictEqual) && (old(flags.StrictEqual) ==> looseKeys == old(looseKeys)) && (!old(flags.StrictEqual) ==> strictKeys == old(strictKeys))
+//@   ensures [key-buffer-goes-back-to-the-pool-exactly-once] keyBufsOut == old(keyBufsOut)
+//@   loop 1 invariant flags.StrictEqual == old(flags.StrictEqual) && (old(flags.StrictEqual) ==> looseKeys == old(looseKeys)) && (!old(flags.StrictEqual) ==> strictKeys == old(strictKeys)) && keyBufsOut == old(keyBufsOut) + 1
+//@   loop 2 invariant flags.StrictEqual == old(flags.StrictEqual) && (old(flags.StrictEqual) ==> looseKeys == old(looseKeys)) && (!old(flags.StrictEqual) ==> strictKeys == old(strictKeys)) && keyBufsOut == old(keyBufsOut)
 //@   modifies *
-//@   modifies looseKeys, strictKeys
+//@   modifies looseKeys, strictKeys, keyBufsOut
 //@ func (*View).group$1
 //@   property C12 C13
 //@   requires 0 <= thIdx && thIdx < len(groupsList) && thIdx < len(groupKeysList)
 //@   requires gm != nil && gm.Number >= 1 && gm.recordLen >= 0 && thIdx < gm.Number && scope != nil && view != nil
 //@   ensures [other-workers-slots-untouched] forall(k, 0, len(groupsList), k != thIdx ==> groupsList[k] == old(groupsList[k]))
 //@   ensures [other-workers-key-lists-untouched] forall(k, 0, len(groupKeysList), k != thIdx ==> same(groupKeysList[k], old(groupKeysList[k])))
-//@   ownwrites C: MD: ML: MV: E:string#
+//@   ownwrites C: MD: ML: MV: E:string# E:value.Primary#
+//@   writesthrough groupsList, groupKeysList
 //@   loop 1 invariant keyBufsOut == old(keyBufsOut)
 //@   loop 2 invariant keyBufsOut == old(keyBufsOut)
 //@   assert after call (*bytes.Buffer).String#*: [key-read-while-the-buffer-is-held] keyBufsOut == old(keyBufsOut) + 1
 //@   modifies *
 
 //@ func (*View).group$2
+//@   writesthrough records
 //@   property C04 C12 C13
 //@   safety
 //@   requires view != nil && 0 <= gIdx && gIdx < len(groupKeys) && gIdx < len(records) && groupKeyCnt != nil
@@ -1413,6 +1453,45 @@ package query
 //@   abstract *
 //@   requires scope != nil && scope.Tx != nil && scope.Tx.viewLoadingMutex != nil && !mutexHeld[scope.Tx.viewLoadingMutex] && scope.Tx.Flags != nil
 //@   modifies *
+// C14 / C20: loading a table expression never rewrites the description (FileInfo) of a table the transaction has cached: the
+// result of a sub-query over a single table shares that FileInfo, so what describes the derived table is written into a
+// copy (it was written into the shared one: every later statement on the table failed with "file  does not exist")
+//@ func loadView!fileinfo
+//@   property C14 C20
+//@   abstract *
+//@   ownwrites F:query.FileInfo.ViewType
+//@   modifies *
+// C05 / C20: names are resolved to files once per statement: a scope outside any statement (the root scope, a scope of a
+// block) carries no path cache, and the scope of a statement (CreateNode) gets a fresh one unless it runs inside another
+// statement. (A cache kept at the root outlives SET @@REPOSITORY and CHDIR: the next statement edits the old file.)
+//@ func NewReferenceScopeWithBlock
+//@   property C05 C20
+//@   safety
+//@   ensures [root-scope-has-no-path-cache] result != nil && fresh(result) && result.cachedFilePath == nil && result.nodes == nil && result.Tx == tx && len(result.Blocks) == 1
+//@   modifies fresh
+//@ func GetNodeScope
+//@   trusted assumed: a node scope from the pool
+//@   modifies * except F:query.ReferenceScope. E:query.BlockScope# F:query.Transaction. F:query.View. F:query.FileInfo.
+//@ func option.Now
+//@   trusted assumed: the current time
+//@   modifies nothing
+//@ func (*ReferenceScope).CreateNode
+//@   property C05 C20
+//@   requires rs != nil && rs.Tx != nil && rs.Tx.Flags != nil
+//@   ensures [statement-scope-has-a-path-cache-of-its-own-unless-nested] result != nil && fresh(result) && result.cachedFilePath != nil && (old(rs.cachedFilePath) == nil ==> fresh(result.cachedFilePath)) && (old(rs.cachedFilePath) != nil ==> result.cachedFilePath == old(rs.cachedFilePath))
+//@   ensures [enclosing-scope-keeps-having-none] rs.cachedFilePath == old(rs.cachedFilePath)
+//@   modifies *
+// C04 / C12: GROUP BY, between the workers and the assembly of the buckets: the per-worker key lists are merged into one
+// list of group keys in worker order in which every key occurs once (a key that occurs in the row ranges of several
+// workers must not open several groups), and every listed key is counted
+//@ func (*View).group!merge
+//@   property C04 C12
+//@   abstract *
+//@   loop 2 invariant [every-listed-key-is-counted] forall(a, 0, len(groupKeys), has(groupKeyCnt, groupKeys[a]))
+//@   loop 2 invariant [no-key-listed-twice] forall(a, 0, len(groupKeys), forall(b, 0, len(groupKeys), a != b ==> groupKeys[a] != groupKeys[b]))
+//@   loop 3 invariant [every-listed-key-is-counted] forall(a, 0, len(groupKeys), has(groupKeyCnt, groupKeys[a]))
+//@   loop 3 invariant [no-key-listed-twice] forall(a, 0, len(groupKeys), forall(b, 0, len(groupKeys), a != b ==> groupKeys[a] != groupKeys[b]))
+//@   modifies *
 //@ func loadObjectFromFile
 //@   property C13
 //@   abstract *
@@ -1487,7 +1566,7 @@ package query
 // record, field j holding the text of cell j; the function reports success only if every record was handed over (a
 // cancellation noticed half-way is an error, never a shorter table: fix below).
 //@ func encodeCSV
-//@   property C02 C01
+//@   property C02 C01 C10
 //@   requires view != nil && forall(k, 0, len(view.RecordSet), len(view.RecordSet[k]) == len(view.Header) && forall(c, 0, len(view.Header), len(view.RecordSet[k][c]) >= 1))
 //@   ensures [success-means-header-and-every-record-written] result == nil ==> csvRecordsWritten == old(csvRecordsWritten) + len(view.RecordSet) + ite(options.WithoutHeader, 0, 1)
 //@   assert after call (*go-text/csv.Writer).Write#1: [header-is-the-column-names] csvRecordsWritten == old(csvRecordsWritten) + 1 && forall(c, 0, len(view.Header), fields[c].Contents == view.Header[c].Column)
@@ -1535,7 +1614,7 @@ package query
 //@ spec def rowTexts(fs []fixedlen.Field, view *View, k int, sci bool) bool = len(fs) == len(view.Header) && forall(c, 0, len(view.Header), fs[c].Contents == fieldText(view.RecordSet[k][c][0], sci))
 //@ spec def headerTexts(fs []fixedlen.Field, view *View) bool = len(fs) == len(view.Header) && forall(c, 0, len(view.Header), fs[c].Contents == view.Header[c].Column)
 //@ func encodeFixedLengthFormat
-//@   property C02
+//@   property C02 C01 C10
 //@   requires view != nil && forall(k, 0, len(view.RecordSet), len(view.RecordSet[k]) == len(view.Header) && forall(c, 0, len(view.Header), len(view.RecordSet[k][c]) >= 1))
 //@   ensures [success-means-header-and-every-record-written-measured] result == nil && old(options.DelimiterPositions) == nil ==> fixedRecordsWritten == old(fixedRecordsWritten) + len(view.RecordSet) + ite(options.WithoutHeader, 0, 1)
 //@   ensures [success-means-header-and-every-record-written-given-positions] result == nil && old(options.DelimiterPositions) != nil ==> fixedRecordsWritten == old(fixedRecordsWritten) + len(view.RecordSet) + ite(options.WithoutHeader || options.SingleLine, 0, 1)
@@ -1574,7 +1653,7 @@ package query
 //@   trusted assumed: flushes the buffered writer
 //@   modifies nothing
 //@ func encodeLTSV
-//@   property C02
+//@   property C02 C01 C10
 //@   requires view != nil && forall(k, 0, len(view.RecordSet), len(view.RecordSet[k]) == len(view.Header) && forall(c, 0, len(view.Header), len(view.RecordSet[k][c]) >= 1))
 //@   ensures [success-means-every-record-written] result == nil ==> ltsvRecordsWritten == old(ltsvRecordsWritten) + len(view.RecordSet)
 //@   assert after call go-text/ltsv.NewWriter#1: [labels-are-the-column-names] len(hfields) == len(view.Header) && forall(c, 0, len(view.Header), hfields[c] == view.Header[c].Column)
@@ -1619,7 +1698,7 @@ package query
 //@   trusted assumed: colour switch of the palette
 //@   modifies * except F:query. E:query. E:value. F:value. F:option. F:parser. E:parser.
 //@ func encodeJsonLines
-//@   property C02
+//@   property C02 C01 C10
 //@   requires view != nil && forall(k, 0, len(view.RecordSet), len(view.RecordSet[k]) == len(view.Header) && forall(c, 0, len(view.Header), len(view.RecordSet[k][c]) >= 1))
 //@   ensures [success-means-every-record-encoded] result == nil ==> jsonRowsEncoded == old(jsonRowsEncoded) + len(view.RecordSet)
 //@   loop 1 invariant 0 <= $i && $i <= len(view.RecordSet) && len(row) == len(view.Header) && jsonRowsEncoded == old(jsonRowsEncoded) + $i
@@ -1630,6 +1709,7 @@ package query
 // its flags only through the slots of its own index; afterwards a right-hand row is appended as unmatched only if no
 // worker flagged it.
 //@ func OuterJoin$2
+//@   writesthrough recordsList, joinViewMatchesList
 //@   property C12 C13
 //@   requires 0 <= thIdx && thIdx < len(recordsList) && thIdx < len(joinViewMatchesList)
 //@   requires gm != nil && gm.Number >= 1 && gm.recordLen >= 0 && thIdx < gm.Number
@@ -1638,7 +1718,7 @@ package query
 
 //@ spec def unmatchedByAll(ml [][]bool, idx int) bool = forall(k, 0, len(ml), !ml[k][idx])
 //@ func OuterJoin
-//@   property C12
+//@   property C12 C03
 //@   loop 2 invariant forall(q, 0, len(appendIndices), unmatchedByAll(joinViewMatchesList, appendIndices[q]))
 //@   loop 3 invariant !match ==> forall(k, 0, $i, !joinViewMatchesList[k][i])
 //@   loop 3 invariant forall(q, 0, len(appendIndices), unmatchedByAll(joinViewMatchesList, appendIndices[q]))
@@ -1669,7 +1749,8 @@ package query
 //@ spec def cacheRowOk(view *View, r int) bool = forall(c, 0, len(view.sortValuesInEachCell[r]), c < len(view.RecordSet[r]) && view.sortValuesInEachCell[r][c] != nil ==>
 //@     svSource(view.sortValuesInEachCell[r][c]) == view.RecordSet[r][c][0])
 //@ func Analyze$1
-//@   property C04
+//@   writesthrough view, partitionKeys
+//@   property C04 C07 C17
 //@   requires view != nil && 0 <= index && index < len(view.sortValuesInEachCell) && index < len(view.RecordSet) && cacheRowOk(view, index)
 //@   requires forall(j, 0, len(partitionIndices), 0 <= partitionIndices[j] && partitionIndices[j] < len(view.RecordSet[index]))
 //@   ensures [cached-key-sits-in-its-column-slot] cacheRowOk(view, index)
@@ -1931,6 +2012,7 @@ package query
 // the comparison key of a row is built from exactly the values of the selected columns of that row (all columns when no
 // select list is recorded), and a worker writes only the key slot of its own row
 //@ func (*View).GenerateComparisonKeys$1
+//@   writesthrough view
 //@   property C04 C12 C13
 //@   requires view != nil && 0 <= index && index < len(view.comparisonKeysInEachRecord) && index < len(view.RecordSet)
 //@   requires view.selectFields != nil ==> forall(j, 0, len(view.selectFields), 0 <= view.selectFields[j] && view.selectFields[j] < len(view.RecordSet[index]) && len(view.RecordSet[index][view.selectFields[j]]) >= 1)
@@ -1950,6 +2032,7 @@ package query
 // C07: ORDER BY. The sort keys of row r are, in the order of the ORDER BY items, the sort keys of the cells of the columns
 // the items resolve to (taken from the per-cell cache when present, which stays consistent); a worker writes only its row.
 //@ func (*View).OrderBy$1
+//@   writesthrough view
 //@   property C07 C12 C13
 //@   requires view != nil && 0 <= index && index < len(view.RecordSet) && index < len(view.sortValuesInEachRecord)
 //@   requires view.sortValuesInEachCell != nil ==> index < len(view.sortValuesInEachCell) && cacheRowOk(view, index)
@@ -2041,6 +2124,13 @@ package query
 //@   trusted assumed: returns the text with ':' and '\' escaped (injective; texts without them are returned unchanged)
 //@   ghostset textsEscaped = textsEscaped + 1
 //@   modifies textsEscaped
+// the body of the escaping step: a text goes into the key bare only when it holds neither the separator ':' (58) nor the
+// escape character '\' (92); every other text goes through the replacer (whose injectivity is assumed of strings.Replacer)
+//@ func escapeKeyText!body
+//@   property C04
+//@   ensures [escaped-whenever-separator-or-escape-character-occurs] strings.IndexByte(s, 58) >= 0 || strings.IndexByte(s, 92) >= 0 ==> result == keyTextEscaper.Replace(s)
+//@   ensures [bare-otherwise] strings.IndexByte(s, 58) < 0 && strings.IndexByte(s, 92) < 0 ==> result == s
+//@   modifies nothing
 //@ func serializeString
 //@   property C04
 //@   ensures [text-is-escaped-before-it-enters-the-key] textsEscaped == old(textsEscaped) + 1
